@@ -642,7 +642,7 @@ func ruleErrChk(c *Ctx, r *RuleResult, fnName, sinkParam string) {
 func init() {
 	register(&propDef{
 		id:          "C20",
-		explanation: "Decides the fault clause for every failure position and the domain of the weight calls: ERRCHK (in tsp.LIB every call that writes to w directly, and every Flush of a buffering wrapper built around w, has its error result examined by an `!= nil` test; on the failure edge every reachable return carries that error (or a wrap of it), and no return is reachable before the test; writes into the text/tabwriter wrapper are exempt because tabwriter holds rows until Flush), DOMAIN (E-PROVE shows 0 <= j < i < n at every call weights(i, j), and weights is used in no other way), SIGNCONV (no signed value - a weight - is converted to an unsigned type without a proof that it is not negative). Does not decide the literal header text or the row layout.",
+		explanation: "Decides the fault clause for every failure position and the domain of the weight calls: ERRCHK (in tsp.LIB every call that writes to w directly, and every Flush of a buffering wrapper built around w, has its error result examined by an `!= nil` test; on the failure edge every reachable return carries that error (or a wrap of it), and no return is reachable before the test; writes into the text/tabwriter wrapper are exempt because tabwriter holds rows until Flush), DOMAIN (E-PROVE shows 0 <= j < i < n at every call weights(i, j), and weights is used in no other way), SIGNCONV (no signed value - a weight - is converted to an unsigned type without a proof that it is not negative). Does not decide the literal header text or the row layout. FLOATCONV: no non-constant 64-bit integer is converted to a floating-point type in the writer (a weight routed through float64 to share a formatting path is rounded above 2^53).",
 		notDecided:  []string{"the exact TSPLIB header text, DIMENSION value and row layout (pinned by the golden-file test)", "that a partial write with a nil error from a non-conforming io.Writer is detected"},
 		assumptions: []string{"text/tabwriter buffers lines of two or more cells until Flush (a single-cell line and a form feed are written out at once: such writes are held to the rule for direct writes) and returns the underlying write error from Flush", "text formatted from non-constant, non-numeric operands contains no tab and no line break", "io.WriteString / fmt.Fprintf return a non-nil error whenever the underlying Write does"},
 		run: func(c *Ctx, tier string) []*RuleResult {
@@ -650,7 +650,7 @@ func init() {
 			ruleErrChk(c, e, "tsp.LIB", "w")
 			gl := ruleGlobalIn(c, "tsp")
 			gl.Doc = "the writer keeps no state between calls: no function of package tsp writes or hands out a package-level variable (a pooled or cached output buffer makes one call's output depend on an earlier, possibly failed, call)"
-			return []*RuleResult{e, ruleDomain(c, "tsp.LIB", "weights", "n"), gl, ruleSignConv(c, "tsp")}
+			return []*RuleResult{e, ruleDomain(c, "tsp.LIB", "weights", "n"), gl, ruleSignConv(c, "tsp"), ruleFloatConv(c, "tsp")}
 		},
 		controls: func(ctl *Ctx) []*RuleResult {
 			var out []*RuleResult
@@ -666,6 +666,7 @@ func init() {
 			ruleErrChk(ctl, g, "errctl.GoodRowsThroughHelper", "w")
 			ruleErrChk(ctl, g, "errctl.GoodSingleCellChecked", "w")
 			ruleErrChk(ctl, g, "errctl.GoodForwarder", "w")
+			out = append(out, ruleFloatConv(ctl, "errctl"))
 			out[0].Findings = append(out[0].Findings, g.Findings...)
 			d := ruleDomain(ctl, "errctl.BadDomain", "weights", "n")
 			d2 := ruleDomain(ctl, "errctl.GoodDomain", "weights", "n")
@@ -914,4 +915,42 @@ func spillOf(a ssa.Value, prm *ssa.Parameter) bool {
 		}
 	}
 	return n == 1
+}
+
+// ruleFloatConv: the weights are integers and the file must contain exactly weights(i, j). A 64-bit
+// integer routed through float64 (to share a formatting path, say) is rounded above 2^53.
+func ruleFloatConv(c *Ctx, pkgRel string) *RuleResult {
+	r := &RuleResult{Rule: "FLOATCONV", Doc: "no non-constant 64-bit integer is converted to a floating-point type in the writer (float64 holds integers exactly only up to 2^53)", MinInst: 1}
+	n := 0
+	for _, fn := range c.Funcs {
+		p := fnPkg(fn)
+		if p == nil || p.Pkg.Path() != c.Mod+"/"+pkgRel || fn.Synthetic != "" || fn.Blocks == nil {
+			continue
+		}
+		n++
+		for _, b := range fn.Blocks {
+			for _, in := range b.Instrs {
+				cv, ok := in.(*ssa.Convert)
+				if !ok || !isInt(cv.X.Type()) || intBits(cv.X.Type()) < 64 {
+					continue
+				}
+				bt, isBasic := cv.Type().Underlying().(*types.Basic)
+				if !isBasic || bt.Info()&types.IsFloat == 0 {
+					continue
+				}
+				if _, isK := cv.X.(*ssa.Const); isK {
+					continue
+				}
+				src := c.srcAt(cv.Pos())
+				if src == "" {
+					src = valName(cv)
+				}
+				r.inst("%s: %s", c.short(fn), src)
+				r.oblig(false)
+				r.find(c.short(fn)+":integer to float "+src, c.instrPos(cv), "%s converts the 64-bit integer %s to %s: values of magnitude above 2^53 are rounded, so the number written is not the weight", c.short(fn), valName(cv.X), cv.Type())
+			}
+		}
+	}
+	r.inst("%d functions of package %s scanned for integer-to-float conversions", n, pkgRel)
+	return r
 }
